@@ -54,7 +54,10 @@ def generate(rng, tier, idx):
         d = rng.randint(2, 4)
         fam = [rng.choice(['normal', 'uniform']) for _ in range(d)]
         table = {'kind': 'table', 'n': rng.choice([1000, 1500]), 'seed': rng.randrange(2**31),
-                 'margs': fam, 'pattern': 'random'}
+                 'margs': fam, 'pattern': 'random',
+                 # location/scale incl. tiny relative and tiny absolute spreads
+                 'affine': [rng.choice([[0.0, 1.0], [0.0, 1.0], [1.7e9, 3e3], [2e-9, 5e-10],
+                                        [-40.0, 0.01], [5.0, 1000.0]]) for _ in range(d)]}
         mapping = {'c%d' % j: {'__cls__': gmvlib.FAM['gaussian' if f == 'normal' else 'uniform']}
                    for j, f in enumerate(fam)}
         config = {'form': 'dict', 'ctor': {'distribution': {'__map__': mapping}}}
@@ -92,6 +95,14 @@ def generate(rng, tier, idx):
             ops.append({'op': rng.choice(['app_draw', 'app_reseed']), 'k': rng.randint(1, 50),
                         's': rng.randrange(2**31)})
         ops.append({'op': 'sample', 'n': n})
+    if not closed and rng.random() < 0.3:
+        # history: the same object is fitted again on another table with the same columns
+        t2 = dict(table, seed=rng.randrange(2**31),
+                  pattern=rng.choice(['random', 'neg', 'chain', 'indep']))
+        ops.append({'op': 'refit', 'table': t2, 'state': rng.randrange(2**31)})
+        ops.append({'op': 'sample', 'n': rng.choice([8, 50])})
+        if rng.random() < 0.3:
+            ops.append({'op': 'sample', 'n': 2000})
     run['ops'] = ops
     return run
 
@@ -244,12 +255,14 @@ def _check_recovery(ctx, run, model, train_df, R_true):
                             % (a, b, r_hat, r_true, n), d=d, n=n)
     eps = 2.0 * refs.dkw_eps(n, 1e-11)
     grid = np.linspace(-4, 4, 401)
+    affine = run['table'].get('affine') or [[0.0, 1.0]] * len(model.univariates)
     for j, (marg, uni) in enumerate(zip(run['table']['margs'], model.univariates)):
         if marg == 'normal':
             xs, G = grid, stats.norm.cdf(grid)
         else:
             xs = np.linspace(-1, 1, 401)
             G = (xs + 1) / 2
+        xs = xs * affine[j][1] + affine[j][0]
         dev = float(np.max(np.abs(uni.cdf(xs) - G)))
         if dev > eps:
             ctx.violate('d_marginal_recovered', subject,
@@ -293,6 +306,20 @@ def execute(run):
         elif op['op'] == 'app_reseed':
             np.random.seed(op['s'] % (2**32))
             ctx.faults['F5_foreign_reseed'] += 1
+        elif op['op'] == 'refit':
+            df2, _r2 = zoo.gen_table(op['table'])
+            if run.get('as_array'):
+                df2 = pd.DataFrame(df2.to_numpy())
+            from copsim.seams import sterile as _sterile
+            with _sterile(op['state']):
+                o = outcome(model.fit, df2.to_numpy() if run.get('as_array') else df2)
+            ctx.probes['refit_same_object'] += 1
+            ctx.event('refit', outcome_class(o))
+            if o[0] != 'ok':
+                break
+            train_df = df2
+            types = tuple(_uni_type(u) + ('*' if gmvlib.is_constant_uni(u) else '')
+                          for u in model.univariates)
         elif op['op'] == 'sample':
             n = op['n']
             proto = _check_sample(ctx, run, model, train_df, n, recognised)
